@@ -33,7 +33,7 @@ CHK_MODULE = "Check.Chk_C06"
 CASE_TYPE = "Chk_C06.case"
 CHECK_FN = "Chk_C06.check_case"
 HEADER = "From Ropt Require Import Model.Layout Model.Store."
-SHARD_SIZE = 60
+SHARD_SIZE = 24
 PARALLEL = True
 CASE_TIMEOUT = 120
 EXHAUSTIVE = {"quick": False, "thorough": True}
@@ -467,7 +467,7 @@ def _run_once(case, run):
                         c[i, 0] = np.nan
                     else:
                         o[i, 0] = np.nan
-            ids = np.arange(n, dtype=np.int64) + 1000 * (len(requests) + 1)
+            ids = np.arange(n, dtype=np.int64) + 100 * (len(requests) + 1)
             if mode == "reuse" and n <= nmax:
                 pool["o"][:n] = o
                 pool["id"][:n] = ids
@@ -830,3 +830,363 @@ def oracle(case, obs):
         w["detail"] = {"run": "B", "detail": w["detail"]}
         return w
     return v
+
+
+# ---------------------------------------------------------------------------------------------
+# Gallina printer
+# ---------------------------------------------------------------------------------------------
+_FIELD = {"objectives": "FObj", "constraints": "FCon", "info.id": "FInfo", "evaluation_info": "FInfo", "info": "FInfo"}
+
+
+def _code(ev: str) -> str:
+    parts = ev.split(":")
+    if parts[0] in ("setattr", "attr-replaced"):
+        f = _FIELD.get(parts[1])
+        return f"(CSetAttr {f})" if f else "COther"
+    if parts[0] == "buffer-changed":
+        f = _FIELD.get(parts[1])
+        return f"(CBufferChanged {f})" if f else "COther"
+    if parts[0] == "alias":
+        f = _FIELD.get(parts[-1])
+        return f"(CAlias {f})" if f else "COther"
+    if parts[0].startswith("delivered-changed"):
+        return "CDeliveredChanged"
+    return "COther"
+
+
+def _dv(x) -> str:
+    x = float(x)
+    if math.isnan(x):
+        return "DNan"
+    if math.isinf(x):
+        return "DPInf" if x > 0 else "DNInf"
+    return f"(DQ {cq.q(x)})"
+
+
+def _flat(v, out):
+    if v is None:
+        out += ["DNInf", "DPInf", "DNInf"]
+    elif isinstance(v, bool):
+        out.append("(DQ (Q_ 1 1))" if v else "(DQ (Q_ 0 1))")
+    elif isinstance(v, (int, float)):
+        out.append(_dv(v))
+    elif isinstance(v, str):
+        out.append(f"(DQ (Q_ {sum(ord(ch) * (i + 1) for i, ch in enumerate(v)) % 100003} 1))")
+    elif isinstance(v, list):
+        out.append(f"(DQ (Q_ {len(v)} 1))")
+        for e in v:
+            _flat(e, out)
+    elif isinstance(v, dict):
+        for k in sorted(v):
+            _flat(v[k], out)
+    else:
+        raise TypeError(type(v))
+    return out
+
+
+def _derived(co):
+    """The derived results of one call (everything computed from the evaluations): they must not depend on the
+    garbage.  (The evaluations of run A are compared with the model entry by entry; those of run B, the requests of
+    run B and the active entries of both runs are compared by the oracle.)"""
+    out = []
+    _flat(co["outcome"], out)
+    _flat(len(co["results"]), out)
+    for r in co["results"]:
+        for f in ("failed", "ow", "cw", "functions", "gradients", "cinfo"):
+            if f in r:
+                _flat(r[f], out)
+    return cq.lst(out)
+
+
+def _orows(rows):
+    return cq.lst(cq.oqs(r) for r in rows)
+
+
+def _oopt(rows, f):
+    return "None" if rows is None else f"(Some {f(rows)})"
+
+
+def _wm(m):
+    return "None" if m is None else f"(Some {cq.qmat(m)})"
+
+
+def _am(m):
+    return "None" if m is None else f"(Some {cq.lst(cq.bs(r) for r in m)})"
+
+
+def _res_term(r):
+    if r["type"] == "F":
+        fn = r["functions"]
+        fobj = "None" if fn is None else f"(Some {cq.oqs(fn['o'])})"
+        fcon = "None" if fn is None or fn["c"] is None else f"(Some {cq.oqs(fn['c'])})"
+        return (f"(OF {cq.qs(r['variables'])} {_orows(r['objectives'])} {_oopt(r['constraints'], _orows)} "
+                f"{cq.nats(r['info'].get('id', []))} {cq.bs(r['failed'])} {_wm(r['ow'])} {_wm(r['cw'])} {fobj} {fcon})")
+    cube = lambda c: cq.lst(_orows(blk) for blk in c)  # noqa: E731
+    return (f"(OG {cq.qs(r['variables'])} {cq.lst(cq.qmat(blk) for blk in r['pv'])} {cube(r['objectives'])} "
+            f"{_oopt(r['constraints'], cube)} {cq.lst(cq.nats(row) for row in r['info'].get('id', []))})")
+
+
+def _req_term(kind, arg):
+    if kind == "F":
+        return f"(QF {cq.nats(arg)})"
+    return f"(QG {cq.nat(arg)})" if kind == "G" else f"(QFG {cq.nat(arg)})"
+
+
+def coq_case(case, obs):
+    A, Bo = obs["A"], obs["B"]
+    R, P, V = case["R"], case["P"], case["V"]
+    calls = []
+    S = 1.0
+    for k, co in enumerate(A["calls"]):
+        kind, arg = case["calls"][k]
+        rq = co["requests"][0] if co["requests"] else None
+        cb = Bo["calls"][k] if k < len(Bo["calls"]) else None
+        if k == len(A["calls"]) - 1 and len(Bo["calls"]) != len(A["calls"]):
+            cb = None
+        smp = co.get("samples")
+        samples = "[]" if smp is None else cq.lst(
+            cq.lst(cq.qs([_sample(case["vseed"], smp, r, p, v) for v in range(V)]) for p in range(P)) for r in range(R))
+        if rq is None:
+            rq = {"realizations": [], "perturbations": None, "rows": [], "ao": None, "ac": None,
+                  "out_o": [], "out_c": None, "out_id": []}
+        for row in rq["out_o"] + (rq["out_c"] or []):
+            for v in row:
+                if not math.isnan(v):
+                    S = max(S, abs(v))
+        pert = "None" if rq["perturbations"] is None else f"(Some {cq.zs(rq['perturbations'])})"
+        if any(x < 0 for x in rq["realizations"]) or any(x < 0 for x in rq["out_id"]):
+            raise ValueError("negative label")
+        ok = co["outcome"] == "ok"
+        calls.append(
+            "(Build_callobs %s %s %s %s %s %s %s %s %s %s %s %s %s %s %s %s)" % (
+                _req_term(kind, arg), samples, cq.b(ok), cq.b(len(co["requests"]) == 1),
+                cq.nats(rq["realizations"]), pert, cq.qmat(rq["rows"]), _am(rq["ao"]), _am(rq["ac"]),
+                _orows(rq["out_o"]), _oopt(rq["out_c"], _orows), cq.nats(rq["out_id"]),
+                cq.lst(_res_term(r) for r in co["results"]) if ok else "[]",
+                cq.lst(_code(e) for e in co["events"]),
+                _derived(co), _derived(cb) if cb is not None else "[DNan]"))
+    vt = "None" if case["vt"] is None else "(Some %s)" % cq.lst(
+        f"({cq.q(s)}, {cq.q(o)})" for s, o in zip(case["vt"]["scales"], case["vt"]["offsets"]))
+    fs = lambda s: "None" if s is None else f"(Some {cq.qs(s)})"  # noqa: E731
+    return ("(Build_case %s %s %s %s %s %s %s %s %s %s %s %s %s %s %s)" % (
+                cq.nat(R), cq.nat(P), cq.nat(case["nobj"]), cq.nat(case["ncon"]), cq.qs(A["config"]["weights"]),
+                cq.qs(A["config"]["mags"]), cq.b(A["config"]["has_filters"]), cq.b(case["est"] == "stddev"),
+                vt, fs(case["ot"]), fs(case["ct"]), cq.qmat(case["pts"]), cq.lst(calls),
+                cq.lst(_code(e) for e in A["final_events"] + Bo["final_events"]
+                       + [e for c_ in Bo["calls"] for e in c_["events"]]),
+                cq.q(S)))
+
+
+# ---------------------------------------------------------------------------------------------
+# evidence helpers, known findings, shrinking, search
+# ---------------------------------------------------------------------------------------------
+def _kinds(case, obs):
+    """Model-independent classification of every executed call: F / B (combined) / S (split gradient)."""
+    out, cache = [], None
+    for k, co in enumerate(obs["A"]["calls"]):
+        ek = _expected_kind(case, k, cache)
+        out.append(ek)
+        if co["outcome"] != "ok":
+            break
+        if ek == "F":
+            cache = case["calls"][k][1][0]
+        elif ek == "B":
+            cache = None
+    return out
+
+
+def _has_inactive(obs):
+    for co in obs["A"]["calls"]:
+        for rq in co["requests"]:
+            for m in (rq["ao"], rq["ac"]):
+                if m is not None and any(not v for row in m for v in row):
+                    return True
+    return False
+
+
+def nontrivial(case, obs):
+    """An evaluation with >= 2 rows was requested and answered, and either some entry was flagged inactive
+    (garbage was really injected) or the history has >= 2 calls (snapshots / memoisation exercised)."""
+    calls = obs["A"]["calls"]
+    if not calls or calls[0]["outcome"] != "ok" or not calls[0]["requests"]:
+        return False
+    if len(calls[0]["requests"][0]["rows"]) < 2:
+        return False
+    return _has_inactive(obs) or len(calls) >= 2
+
+
+def features(case, obs):
+    kinds = _kinds(case, obs)
+    outcomes = [co["outcome"].split(":")[0] for co in obs["A"]["calls"]]
+    filt = "none"
+    if case["filters"]:
+        o, c = case["ofil"] is not None and any(i >= 0 for i in case["ofil"]), \
+            case["cfil"] is not None and any(i >= 0 for i in case["cfil"])
+        filt = {(True, True): "obj+con", (True, False): "obj-only", (False, True): "con-only",
+                (False, False): "configured-unused"}[(o, c)]
+    return {
+        "R": case["R"], "P": case["P"], "B": max([len(a) for k_, a in case["calls"] if k_ == "F"] or [0]),
+        "calls": len(case["calls"]), "kinds": "".join(kinds), "split": "S" in kinds,
+        "zero_weights": min(3, sum(1 for w in case["weights"] if w == 0)), "inactive_flagged": _has_inactive(obs),
+        "filters": filt, "est": case["est"], "merge": case["merge"], "mode": case["mode"], "garbage": case.get("garb", "std"),
+        "transforms": "".join(t for t, v in (("v", case["vt"]), ("o", case["ot"]), ("c", case["ct"])) if v) or "-",
+        "nan_failures": bool(case["fails"]), "aborted": "abort" in outcomes, "raised": "raise" in outcomes,
+        "memo_hit": any(rq.get("memo_hit") for co in obs["A"]["calls"] for rq in co["requests"]),
+    }
+
+
+def _leaves(v, path=""):
+    if isinstance(v, dict):
+        for k in v:
+            yield from _leaves(v[k], f"{path}.{k}")
+    elif isinstance(v, list):
+        for i, e in enumerate(v):
+            yield from _leaves(e, f"{path}[{i}]")
+    else:
+        yield path, v
+
+
+def known_signature(case, obs, violation):
+    """C06:huge-garbage-overflow -- only when garbage >= 1e150 was returned for inactive entries (separate
+    stream), the failing clause is inertness, and EVERY reported value that differs between the two runs is
+    NaN/inf in the huge-garbage run (constraint_info is a function of functions.constraints and is accepted
+    only together with NaN constraints)."""
+    if violation is None or violation.get("clause") != "inert":
+        return None
+    if case.get("garb") != "big" or min(BIG_GARBAGE) < 1e150 or not _has_inactive(obs):
+        return None
+    diffs = inert_diffs(obs["A"], obs["B"])
+    if not diffs:
+        return None
+    for d in diffs:
+        if d.get("field") not in ("functions", "gradients", "cinfo") or d.get("A") is None or d.get("B") is None:
+            return None
+        la, lb = dict(_leaves(d["A"])), dict(_leaves(d["B"]))
+        if la.keys() != lb.keys():
+            return None
+        if d["field"] == "cinfo":
+            same_res = [e for e in diffs if e.get("call") == d["call"] and e.get("result") == d["result"]
+                        and e.get("field") == "functions"]
+            if not same_res or not any(isinstance(v, float) and math.isnan(v)
+                                       for p_, v in _leaves(same_res[0]["B"]) if p_.startswith(".c")):
+                return None
+            continue
+        for p_ in la:
+            a, b = la[p_], lb[p_]
+            if _same(a, b):
+                continue
+            if not (isinstance(b, float) and (math.isnan(b) or math.isinf(b))):
+                return None
+    return KNOWN_HUGE
+
+
+def shrink(case):
+    calls = case["calls"]
+    for k in range(len(calls) - 1, -1, -1):
+        if len(calls) > 1:
+            yield {**case, "calls": calls[:k] + calls[k + 1:], "fails": [f for f in case["fails"] if f[0] < k]}
+    if case["fails"]:
+        yield {**case, "fails": []}
+        for k in range(len(case["fails"])):
+            yield {**case, "fails": case["fails"][:k] + case["fails"][k + 1:]}
+    for key in ("vt", "ot", "ct"):
+        if case[key] is not None:
+            yield {**case, key: None}
+    if case["filters"]:
+        yield {**case, "filters": [], "ofil": None, "cfil": None}
+    if case["est"] != "mean":
+        yield {**case, "est": "mean"}
+    if case["merge"]:
+        yield {**case, "merge": False}
+    if case["mode"] != "memo":
+        yield {**case, "mode": "memo"}
+    for k, (kind, arg) in enumerate(calls):
+        if kind == "F" and len(arg) > 1:
+            yield {**case, "calls": calls[:k] + [["F", arg[:-1]]] + calls[k + 1:]}
+    if case["P"] > 1:
+        yield {**case, "P": case["P"] - 1}
+    if case["R"] > 1 and case["R"] == len(case["weights"]) and any(case["weights"][:-1]):
+        ok = True
+        for f in case["filters"]:
+            o = f["options"]
+            if "last" in o and o["last"] >= case["R"] - 1:
+                ok = False
+        if ok:
+            yield {**case, "R": case["R"] - 1, "weights": case["weights"][:-1]}
+
+
+def search(rng, case):
+    if case is None:
+        for i in range(600):
+            yield gen_one(rng, small=(i % 3 == 0), region=(None, "objfilter", "confilter")[i % 3])
+        return
+    yield from shrink(case)
+    for i in range(300):
+        c = gen_one(rng, small=(i % 2 == 0))
+        for key in ("filters", "ofil", "cfil", "est", "merge", "vt", "ot", "ct", "mode"):
+            if rng.random() < 0.6:
+                c[key] = case[key]
+        if c["filters"]:
+            ok = all(("last" not in f["options"] or f["options"]["last"] < c["R"]) and
+                     (isinstance(f["options"]["sort"], list) and max(f["options"]["sort"]) < c["nobj"]
+                      or isinstance(f["options"]["sort"], int) and f["options"]["sort"] < c["ncon"])
+                     for f in c["filters"])
+            nf = len(c["filters"])
+            if not ok or (c["ofil"] is not None and (len(c["ofil"]) != c["nobj"] or max(c["ofil"]) >= nf)) \
+                    or (c["cfil"] is not None and (len(c["cfil"]) != c["ncon"] or max(c["cfil"]) >= nf)):
+                c["filters"], c["ofil"], c["cfil"] = [], None, None
+        else:
+            c["ofil"], c["cfil"] = None, None
+        if c["vt"] is not None and len(c["vt"]["scales"]) != c["V"]:
+            c["vt"] = None
+        if c["ot"] is not None and len(c["ot"]) != c["nobj"]:
+            c["ot"] = None
+        if c["ct"] is not None and len(c["ct"]) != c["ncon"]:
+            c["ct"] = None
+        if c["est"] == "stddev" and (c["merge"] or sum(1 for w in c["weights"] if w) < 2):
+            c["est"] = "mean"
+        yield c
+
+
+RULE = ("structured random: ensemble R<=6, perturbations P<=5, batches B<=4, 1-3 variables, 1-2 objectives, 0-2 constraints, "
+        "integer realization weights with zeros, 0-2 realization filters (sort/cvar on objectives/constraints, applied to any "
+        "subset, incl. the two 'only one kind filtered' regions), mean/stddev estimators, merged gradients, optional "
+        "variable/objective/constraint scalers (powers of two), NaN failures, histories of 1-4 calculate() calls (function "
+        "batches, combined calls, gradient-only calls hitting or missing the function cache), evaluator modes memo/reuse/fresh; "
+        "every case is executed twice with different finite garbage in the entries the implementation flagged inactive "
+        "(run A small, run B 2^40..2^100; a separate small stream uses 1e200 / finfo.max/2 = region of the known finding); "
+        "thorough adds the exhaustive grid R,P,B<=3 x all weight-zero patterns x all evaluation kinds. Non-trivial = a request "
+        "with >= 2 rows was answered and (some entry was flagged inactive or the history has >= 2 calls); distinct = distinct case.")
+ASSUMPTIONS = [
+    "the user evaluator is a function of (variable row, realization, function index) plus scripted NaN failures; garbage is finite and only placed in entries the implementation itself flagged inactive",
+    "garbage magnitudes <= 2^100 in the main stream (products and squares stay finite); larger garbage overflows in ropt's arithmetic: known finding C06:huge-garbage-overflow, exercised by a separate stream",
+    "perturbations come from an injected deterministic sampler plug-in; variable bounds are infinite (truncation is C10's subject)",
+    "scaler transforms use power-of-two scales so that transformed values are exact and provenance can be compared exactly",
+    "function estimates are tied to the model's small mean/variance definitions; gradients are tied only through the two-run comparison (the least-squares solve is a black box of C02)",
+]
+TRUSTED = [
+    "the run-time monitor of the harness (result subclass recording __setattr__, buffer shadow copies, np.shares_memory, digests of delivered results) is what ties Model/Store.v to CPython object identity; (d) is therefore partial",
+    "numpy semantics of repeat/tile/reshape/vsplit are modelled (np_repeat/np_tile/chunk) and compared on every case, not verified from numpy's source",
+]
+
+MANIFEST = {
+    "level_text": ("Machine-checked Coq proofs about the executable model of ropt's evaluator requests (Model/Layout.v, Model/Store.v): "
+                   "for all R, P, B the label lists of the three request kinds are exactly the full product, each label once, unperturbed "
+                   "rows labelled -1, and row i carries the (user-domain) vector of label i; every reported per-realization value is the "
+                   "(transformed, NaN-propagated) value returned for the row with that label, also per batch; entries are flagged inactive "
+                   "only at zero weight and, for split gradient evaluations, exactly at zero weight in force; mean/variance estimates and "
+                   "mean/stddev gradient sums are invariant under arbitrary changes of zero-weight entries (non-interference); in the store "
+                   "model no operation of any history writes a location owned by the evaluator and every delivered array is a fresh ropt-owned "
+                   "buffer never written after delivery. The model is tied to the code on every run by an in-Coq correspondence on real "
+                   "EnsembleEvaluator histories with a recording, memoising, monitored evaluator, each run twice with different garbage."),
+    "level_note": ("(d) no-mutation/snapshots is PARTIAL: the theorem is about the explicit store model; CPython aliasing is outside a pure "
+                   "model and is tied only by the harness's run-time monitor (setattr recorder, buffer shadows, shares_memory, re-hashing of "
+                   "delivered results after later calls and after buffer reuse), whose observed foreign writes are compared in Coq with the "
+                   "model's (empty) list. Inertness of gradients is proved for an abstract least-squares solve and tied to the code by the "
+                   "two-run comparison only; function estimates are tied to the model's mean/variance definitions (stddev via its square). "
+                   "Trusted: Coq kernel + VM, the Python driver/monitor and Gallina printer, numpy layout primitives as modelled. Known "
+                   "finding C06:huge-garbage-overflow (garbage >= 1e150 overflows to NaN) is confirmed by a separate stream. All theorems "
+                   "print 'Closed under the global context'."),
+    "technique": "Coq proof (list/permutation induction, store-typing soundness) on an executable Gallina model + in-Coq differential correspondence with the real EnsembleEvaluator + run-time aliasing monitor",
+    "design_ref": "DESIGN.md section 4, C06",
+}
